@@ -240,6 +240,37 @@ func runC16(r *Run) {
 			ok = isC && k.Value.String() == "true" && core.HasFact(ff.At(c), "true($1)")
 		}
 		r.R.Check(ok, P+".force.thread", "E2: the forced cut inside processAvailable happens only under forceCut = true", core.FuncName(f), r.where(f), "-", "cutAndProcess(true) under forceCut", "forced cut not guarded by the parameter")
+		// the other direction (liveness of the timeout): after a successful drain, the return that skips the
+		// forced cut is reachable only across pending = 0 or forceCut = false
+		for _, c := range r.callsIn(f, "Writer.cutAndProcess") {
+			skipOK := true
+			var det []string
+			for _, ri := range ff.Returns() {
+				if c.Block().Dominates(ri.Ret.Block()) {
+					continue // a return after the forced cut
+				}
+				// early returns: the drain-error return is identified by the failure edge of drain
+				if core.HasFact(ri.Facts, "fail(Writer.drain(_))") {
+					continue
+				}
+				if r.reachableWithout(ff, ri.Ret, []string{"false($1)", "cmp(Writer.drain(_) == 0)", "fail(Writer.drain(_))"}) {
+					skipOK = false
+					det = append(det, r.P.Pos(ri.Ret.Pos())+": the forced cut is skipped although the cut is forced and operations are pending")
+				}
+			}
+			r.R.Check(skipOK, P+".force.live", "E8: with forceCut = true and operations still pending after the drain, processAvailable goes on to the forced cut (the skipping return needs pending = 0 or forceCut = false)", core.FuncName(f), r.where(f),
+				"if the timeout does not cut the remaining operations, a partially filled batch is never anchored", "skip only when nothing is pending or the cut is not forced", strings.Join(det, "; "))
+		}
+	}
+	// a stopped writer refuses operations (an operation accepted after Stop would never be anchored)
+	if f := r.fn(P, pkgBatch, "Writer.Add"); f != nil {
+		ff := r.E.Facts(f, core.Ctx{})
+		okStop := false
+		for _, c := range r.callsIn(f, "BatchCutter.Add", "batchCutter.Add", "cutter.Add") {
+			okStop = core.HasFact(ff.At(c), "false(Writer.Stopped(_))")
+		}
+		r.R.Check(okStop, P+".add.stopped", "E8 never-before: the writer queues an operation only under Stopped() = false", core.FuncName(f), r.where(f),
+			"an operation accepted by a stopped writer is acknowledged to the client and never anchored", "queued only while running", "the operation is queued without the Stopped() test")
 	}
 	if f := r.fn(P, pkgBatch, "Writer.drain"); f != nil {
 		ok := false
@@ -248,6 +279,23 @@ func runC16(r *Run) {
 			ok = isC && k.Value.String() == "false"
 		}
 		r.R.Check(ok, P+".force.drain", "constant argument: drain never forces a cut", core.FuncName(f), r.where(f), "-", "cutAndProcess(false)", "drain forces cuts")
+		// the drain loop goes round only after a cut that produced a batch without error
+		df := r.E.Facts(f, core.Ctx{})
+		okLoop, nBack := true, 0
+		for _, head := range allLoopHeads(f) {
+			for _, ip := range loopIterationPaths(df, head, 500) {
+				if ip.Ret != nil {
+					continue
+				}
+				nBack++
+				pf := rawPathFacts(df, ip.Blocks)
+				if !core.HasFact(pf, "cmp(Writer.cutAndProcess(_, _) != 0)") || !core.HasFact(pf, "ok(Writer.cutAndProcess(_, _))") {
+					okLoop = false
+				}
+			}
+		}
+		r.R.Check(okLoop && nBack > 0, P+".drain.terminates", "E8: the drain loop starts another round only after cutAndProcess returned without error and with a non-empty batch", core.FuncName(f), r.where(f),
+			"a drain loop that goes round after an empty cut (or after an error) never returns: the writer goroutine spins and no timeout cut is ever made", fmt.Sprintf("%d back edge path(s), all under n != 0 and a nil error", nBack), "the loop can go round after an empty cut or an error")
 	}
 }
 
